@@ -166,8 +166,9 @@ theorem resume_views (cfg : Cfg K) (sched : View K → Except Err (Schedule K)) 
         · left
           simp only [run, runViews, hg, if_true, hb]
           rcases hbs : body cfg sched s with ⟨s', _ | e⟩ <;> simp only []
-          have hgt : k < s'.core.iter := by rw [(body_ok_core hbs).1]; omega
-          exact ⟨run_failAt_gt cfg sched n hgt, by rw [runViews_failAt_gt cfg sched n hgt]⟩
+          · have hgt : k < s'.core.iter := by rw [(body_ok_core hbs).1]; omega
+            exact ⟨run_failAt_gt cfg sched n hgt, by rw [runViews_failAt_gt cfg sched n hgt]⟩
+          · exact ⟨trivial, trivial⟩
         · right
           obtain ⟨_, _, hg', hobs⟩ := body_retry cfg sched hI he
           have hc := eventsStage_core cfg s
